@@ -1,7 +1,9 @@
 package gen
 
 import (
+	"math/big"
 	"strconv"
+	"strings"
 
 	"verifharness/internal/rng"
 )
@@ -45,6 +47,22 @@ var stringPool = []string{
 	`"123"`, `"true"`, `"null"`, `"RED"`,
 }
 var bigInts = []string{"99999999999999999999", "-99999999999999999999", "9223372036854775808", "1099511627776"}
+// MaxFiniteDoubleInt is the largest integer literal that still converts to a finite double
+// (2^1024 - 2^970 - 1: everything below the half-way point between MaxFloat64 and 2^1024);
+// BeyondDoubleInts are integer literals that strconv.ParseFloat turns into ±Inf.
+var MaxFiniteDoubleInt, BeyondDoubleInts = func() (string, []string) {
+	one := big.NewInt(1)
+	thr := new(big.Int).Sub(new(big.Int).Lsh(one, 1024), new(big.Int).Lsh(one, 970))
+	last := new(big.Int).Sub(thr, one)
+	p309 := "1" + strings.Repeat("0", 309)
+	return last.String(), []string{p309, "-" + p309, thr.String(), "-" + thr.String(), "1" + strings.Repeat("0", 399),
+		"9" + strings.Repeat("9", 309)}
+}()
+
+// valid integer literals for a Float position: beyond int64, and the largest finite double as an integer
+var floatBigInts = append(append([]string{}, bigInts[:3]...), MaxFiniteDoubleInt, "-"+MaxFiniteDoubleInt,
+	"1"+strings.Repeat("0", 308))
+
 var anyPool = []string{"99999999999999999999", "1e999", "-1E999", "1e-999", "0", "-7", "2.5", `"s"`, `"""b"""`, "true", "false", "FOO", "bar", "null"}
 
 func (g *litGen) intLit() {
@@ -134,7 +152,7 @@ func (g *litGen) named(t *TypeRef, def *TypeDef, depth int, fl uint8) {
 			switch {
 			case g.bigNum && r.Chance(1, 40):
 				g.hitBigNum = true
-				g.b = append(g.b, rng.Pick(g.r, bigInts[:3])...)
+				g.b = append(g.b, rng.Pick(g.r, floatBigInts)...)
 			case r.Chance(1, 3):
 				g.intLit()
 			default:
